@@ -824,7 +824,7 @@ func main() {
 	mon.Main(&mon.Spec{
 		Property: "C19",
 		Level:    "exploration",
-		Rule: "built with -race and the pool shim (poison-on-put, deterministic LIFO reuse, runtime.Gosched injected inside every pool Get/Put - the only place sessions meet - and goroutine tracking). A case = N in {4,16,64} sessions, each a client goroutine + server goroutine over a buffered in-memory duplex, roles {ws.Upgrader, ws.HTTPUpgrader behind net/http} x {ws.Dialer, wsutil.DebugDialer, background/non-background contexts}, two thirds of the ws.Upgrader sessions over wss:// with the library's DEFAULT TLS client configuration (4 host names, per-host certificates of a private CA, SNI recorded) and one session in five with an injected connection write fault half way, traffic {Read*Data/Write*Message helpers and header + CipherWriter streaming, Reader + GetWriter/PutWriter echo, compressed frames via per-session wsflate.Helper values of three different codec configurations (the compressed bytes are part of the transcript), compressed Writer/Reader stack with MessageState}, 3-6 messages of 0 B..100 KiB across the pool classes with pings carrying payloads and a closing handshake (with a long reason, or reason-less with a spec-defined code built by the frame constructors and masked in place); GOMAXPROCS in {1,2,4,16}; 4 session mixes. " +
+		Rule: "built with -race and the pool shim (poison-on-put, deterministic LIFO reuse, runtime.Gosched injected inside every pool Get/Put - the only place sessions meet - and goroutine tracking). A case = N in {4,16,64} sessions, each a client goroutine + server goroutine over a buffered in-memory duplex, roles {ws.Upgrader, ws.HTTPUpgrader behind net/http} x {ws.Dialer, wsutil.DebugDialer, background/non-background contexts}, two thirds of the ws.Upgrader sessions over wss:// with the library's DEFAULT TLS client configuration (4 host names, per-host certificates of a private CA, SNI recorded) and one session in five with an injected connection write fault half way, traffic {Read*Data/Write*Message helpers and header + CipherWriter streaming, Reader + GetWriter/PutWriter echo, compressed frames via per-session wsflate.Helper values of three different codec configurations (the compressed bytes are part of the transcript), compressed Writer/Reader stack with MessageState}, 3-6 messages of 0 B..100 KiB across the pool classes with pings carrying payloads and a closing handshake (with a long reason, or reason-less with a spec-defined code built by the frame constructors and masked in place); GOMAXPROCS in {1,2,4,16}; 4 session mixes. Plus stateless-storm: 4/16/48 goroutines each running a seeded script of 300 calls of the connection-less API (WriteHeader/WriteFrame/CompileFrame/ReadFrame over yielding destinations and sources, close-body builders and parsers, CheckHeader, mask helpers, one-call message helpers, wsflate frame and bit helpers, control-message handler, Extension.Negotiate, header writers) at once: every call returns what it returns when the script runs alone. " +
 			"Oracle: each session's transcript (handshake results, every echo verified, control events, close codes, errors, on both sides) must equal the transcript of the same seeded session run alone; no shim alarm; shared package-level values unchanged; the Go race detector reports counted by the supervisor (GORACE log_path, halt_on_error=0) over repeated rounds. distinct = (N, GOMAXPROCS, mix).",
 		Assumptions: []string{"race reports vary run to run: the whole workload is repeated (rounds) with different seeds", "a clean race-detector run is not freedom from races on unexplored interleavings: the evidence reports the cross-goroutine buffer hand-offs actually observed"},
 		RaceLogs:    true,
@@ -835,6 +835,6 @@ func main() {
 			return 1
 		},
 		HangSeconds: 400,
-		Subs:        []mon.Sub{subSessions()},
+		Subs:        []mon.Sub{subSessions(), subStatelessStorm()},
 	})
 }
